@@ -271,7 +271,10 @@ def scanLeaves : Nat → Leaf → SM (List (LeafCell × Nat))
       | .leaf r => do
         let rest ← scanLeaves fuel r
         pure (here ++ rest)
-      | .internal _ => panicS "scanRight: sibling is an internal node"
+      | .internal n =>
+        -- the loop does not look at the node kind: an internal node has no sibling flag, and
+        -- indexing its (missing) leaf cells panics unless it has no cells at all (a zero page)
+        if n.cells.isEmpty then pure here else panicS "scanRight: sibling is an internal node"
     else pure here
 
 def scanFuel : Nat := 100000
@@ -499,7 +502,7 @@ def insertSchemaRows : List FieldDef → Bytes → Nat → SM Unit
     else insertSchemaRows rest name root
 
 /-- `RelationService.CreateTable` (the flush's page write order is supplied) -/
-def createTable (fields : List FieldDef) (name : Bytes) (flushOrder : List Nat) : SM Unit := fun s =>
+def createTable (fields : List FieldDef) (name : Bytes) (flushOrder : List Nat) (doFlush : Bool := true) : SM Unit := fun s =>
   match relationOffset name s with
   | .err .tableNotExist s1 =>
     if fields.any (fun fd => fd.len > 2147483647 || fd.len < -2147483648) then .err .intOutOfRange s1 else
@@ -509,7 +512,7 @@ def createTable (fields : List FieldDef) (name : Bytes) (flushOrder : List Nat) 
       let schemaRoot ← relationOffset "sys_schema".toUTF8.toList
       let _ ← fetch schemaRoot
       insertSchemaRows fields name schemaRoot
-      flushPages flushOrder) s1
+      if doFlush then flushPages flushOrder else pure ()) s1
   | .ok _ s1 => .err .tableAlreadyExist s1
   | .err _ s1 => .err .tableAlreadyExist s1
   | .panic p => .panic p
@@ -533,6 +536,16 @@ def createDB (flushOrder : List Nat) : SM Unit := do
   flushPages flushOrder
   -- `defer rs.Close()`: a second flush (nothing is dirty any more)
   flushPages []
+
+/-- the data file after a flush was interrupted before its `j`-th page write: the first `j` pages of
+the observed write order are on disk, the header is still the old one -/
+def tornFlush (s : Store) (order : List Nat) (j : Nat) : Store :=
+  let written := order.take j
+  let disk' := written.foldl (fun d off =>
+    match assocGet s.mem off with
+    | some m => assocSet d (nodeOff m.node) m.node
+    | none => d) s.disk
+  { hdr := s.dhdr, mem := [], disk := disk', dhdr := s.dhdr }
 
 /-- open a database from its data file: empty cache, header read from disk (`fileStore.open`) -/
 def reopen (s : Store) : Store := { hdr := s.dhdr, mem := [], disk := s.disk, dhdr := s.dhdr }
